@@ -7,12 +7,113 @@
 //! floor (the observer), i.e. the caller-side clone is still alive.
 //! The borrowed-child scenarios are a KNOWN FINDING and live in their own harnesses.
 
+use crate::corpus::{Consume, ConsumeCtxBox, ConsumeRetTmp};
 use crate::corpus2::*;
+use cglue::trait_group::{c_void, CGlueObjContainer};
 use cglue::prelude::v1::*;
 use cglue::*;
 use nd::obs::*;
 
+// ---- the CALLER-side glue of a by-value call, isolated: the object gets a foreign vtable whose
+// `finish` entry plays the callee (it owns the container it receives by value and releases its
+// context reference), so what is left alive after that release is what the caller holds.
+type RealCont = CGlueObjContainer<CBox<'static, c_void>, Ctx, ConsumeRetTmp<Ctx>>;
+#[repr(C)]
+struct ContV {
+    inst: *mut c_void,
+    drop_fn: Option<unsafe extern "C" fn(*mut c_void)>,
+    ctx: Ctx,
+}
+#[repr(C)]
+struct MockVt {
+    c_peek: extern "C" fn(&RealCont) -> u64,
+    c_bump: extern "C" fn(&mut RealCont, u64) -> u64,
+    finish: extern "C" fn(RealCont) -> u64,
+}
+#[repr(C)]
+struct ObjV {
+    vtbl: *const MockVt,
+    cont: ContV,
+}
+static mut M_ENTRY_LIVE: i32 = -1;
+static mut M_AFTER_RELEASE_LIVE: i32 = -1;
+static mut M_CALLS: u32 = 0;
+static mut M_INST_DROPS: u32 = 0;
+static mut M_RET: u64 = 0;
+extern "C" fn mock_peek(_c: &RealCont) -> u64 {
+    5
+}
+extern "C" fn mock_bump(_c: &mut RealCont, v: u64) -> u64 {
+    v
+}
+unsafe extern "C" fn mock_inst_drop(_p: *mut c_void) {
+    M_INST_DROPS += 1;
+}
+extern "C" fn mock_finish(cont: RealCont) -> u64 {
+    unsafe {
+        M_CALLS += 1;
+        M_ENTRY_LIVE = ctx_live();
+        assert!(core::mem::size_of::<RealCont>() == core::mem::size_of::<ContV>());
+        let v: ContV = core::mem::transmute(cont);
+        let ContV { inst, drop_fn, ctx } = v;
+        drop(ctx); // the callee releases the context reference it was given
+        M_AFTER_RELEASE_LIVE = ctx_live();
+        (drop_fn.unwrap())(inst);
+        M_RET
+    }
+}
+static MOCK_VT: MockVt = MockVt { c_peek: mock_peek, c_bump: mock_bump, finish: mock_finish };
+
 nd::harnesses! {
+    /// The caller-side glue of a consuming call keeps its own clone of the context alive until the
+    /// callee has returned: after the callee released the reference it received, one more (besides
+    /// the observer) is still alive, and it is released once control is back.
+    #[kani::unwind(4)]
+    fn c07_caller_glue_holds_context_across_consuming_call() {
+        reset();
+        ctx_reset();
+        unsafe { M_CALLS = 0; M_INST_DROPS = 0; M_ENTRY_LIVE = -1; M_AFTER_RELEASE_LIVE = -1; M_RET = nd::any(); }
+        let base = Ctx::new();
+        let mut cell: u64 = nd::any();
+        assert!(core::mem::size_of::<ObjV>() == core::mem::size_of::<ConsumeCtxBox<'static, Ctx>>());
+        let view = ObjV { vtbl: &MOCK_VT, cont: ContV { inst: &mut cell as *mut u64 as *mut c_void, drop_fn: Some(mock_inst_drop), ctx: base.clone() } };
+        let mut obj: ConsumeCtxBox<'static, Ctx> = unsafe { core::mem::transmute(view) };
+        assert!(ctx_live() == 2);
+        assert!(obj.c_peek() == 5 && obj.c_bump(9) == 9 && ctx_live() == 2, "borrowing calls take no context clone");
+        let r = obj.finish();
+        unsafe {
+            assert!(M_CALLS == 1 && r == M_RET);
+            assert!(M_AFTER_RELEASE_LIVE >= 2, "context still held by the caller after the callee released its reference");
+            assert!(M_INST_DROPS == 1);
+        }
+        assert!(ctx_live() == 1, "the caller's clone is released once control is back");
+        drop(base);
+        assert!(ctx_live() == 0);
+    }
+
+    /// Drop order inside an object: its instance is destroyed while its context clone is still alive
+    /// (the library must stay loaded while the instance's destructor runs).
+    #[kani::unwind(4)]
+    fn c07_instance_destroyed_before_context_released() {
+        reset();
+        ctx_reset();
+        let v: u32 = nd::any();
+        let with_observer: bool = nd::any();
+        let base = Ctx::new();
+        let obj = trait_obj!((P::new(v), base.clone()) as Maker);
+        let child = obj.make();
+        let floor = if with_observer { 1 } else { core::mem::forget(base); 0 };
+        // the child goes first, the parent is the last holder
+        drop(child);
+        unsafe { IN_CONSUMING_CALL = true; CTX_SEEN_AT_SELF_DROP = -1; }
+        drop(obj);
+        unsafe {
+            IN_CONSUMING_CALL = false;
+            assert!(CTX_SEEN_AT_SELF_DROP >= floor + 1, "the object's own context clone is alive while its instance is destroyed");
+        }
+        assert!(live() == 0);
+    }
+
     /// A tree of objects sharing one context: symbolic sequence of {obtain owned child, obtain owned
     /// group child, drop a child}, then a symbolic ending {drop parent, finish (consume), into_leaf
     /// (consume, result keeps the context)}, children dropped before or after the parent.
